@@ -18,12 +18,16 @@ Line-protocol driver for the C01 model (kv manifest / crash recovery).
   enc <fid> <log> ...                     hex of editLog.marshal
   dec <hex>                               editLog.unmarshal
   entries <B> <len,len,...>               bufio entry framing: write, read back with a B-byte read buffer
+  cfrace <name> <point> <seq>             two concurrent creators of one new family (creators' model, lock region as regenerated)
+  cfwitness <name>                        two creators, flusher of the unpublished object, cleanup of the published one
 
 log tokens: nf,l,f,min,max,size  df,l,f  next,n  nr,f,i  dr,f,i  nref,storehex,fam,f  dref,storehex,fam,f  seq,l,s
 -/
 import LinVerif.Util.Proto
 import LinVerif.Model.KvFs
 import LinVerif.Model.Entries
+import LinVerif.Model.C01CreateFam
+import LinVerif.Generated.C01
 
 namespace LinVerif.Driver.C01
 open LinVerif LinVerif.Kv
@@ -209,6 +213,11 @@ def crashOut (cfg : Cfg) (d : Disk) (showTrace : Bool := true) : String :=
       | none => "F" ++ toString f.opt.name ++ "{?}"))
     s!"ok fs={traceTok ops} st={stateTok m} c={content} ls={lsTok d' m} fresh={m.vs.next}"
 
+/-- the creators' model as the source stands now (regenerated lock-region facts) -/
+def cfCfg : C01CF.Cfg :=
+  ⟨Generated.C01.createFamilyLockHeldToReturn && Generated.C01.createFamilyPublishesAfterLock == 1,
+   Generated.C01.createFamilyRechecksUnderLock⟩
+
 def step (s : DSt) (ws : List String) : DSt × String :=
   match ws with
   | ["reset", lv, ru] =>
@@ -366,6 +375,18 @@ def step (s : DSt) (ws : List String) : DSt × String :=
     match fid.toInt?, toks.mapM parseLog with
     | some f, some logs => (s, hex (marshal ⟨f, logs⟩))
     | _, _ => (s, "bad-op")
+  | ["cfrace", name, point, seq] =>
+    match name.toNat?, seq.toNat? with
+    | some nm, some sq =>
+      if point ≠ "pre-opts" ∧ point ≠ "pre-mkfam" ∧ point ≠ "post-mkfam" then (s, "bad-op") else
+      if !cfCfg.held && point = "pre-opts" then (s, "unscheduled") else
+      let st := C01CF.run cfCfg { C01CF.St.init with seq := sq } (C01CF.raceSchedule cfCfg nm point)
+      (s, C01CF.raceObs st nm)
+    | _, _ => (s, "bad-op")
+  | ["cfwitness", name] =>
+    match name.toNat? with
+    | some nm => (s, C01CF.witnessObs cfCfg nm)
+    | none => (s, "bad-op")
   | ["entries", b, lens] =>
     -- entry framing: write records of the given lengths (content generated from the index), read them
     -- back with a read buffer of b bytes; print count, clean-end flag and length:checksum per record
